@@ -71,8 +71,9 @@ VARIABLES tpls,     \* the chain: tpls[1] is the leaf, tpls[i] extends tpls[i+1]
           result,   \* "" running | "ok" | "TIE" | "REQ" | "DEPTH" | "skip"
           sel,      \* the most recent block / super selection (for the selection invariants)
           nstacked, \* ghost: number of StackTemplate steps
-          chk       \* facts about the finished chain, computed once by Finish: [clean, bound]
-vars == <<tpls, ext, open, bud, phase, cur, seen, stacks, items, work, out, result, sel, nstacked, chk>>
+          chk,      \* facts about the finished chain, computed once by Finish: [clean, bound]
+          acts      \* ghost: names of the actions taken so far (emitted, so that vacuity is visible per chain)
+vars == <<tpls, ext, open, bud, phase, cur, seen, stacks, items, work, out, result, sel, nstacked, chk, acts>>
 mech == <<cur, seen, stacks, items, work, out, sel, nstacked>>
 
 -----------------------------------------------------------------------------
@@ -156,6 +157,7 @@ Expected ==
 
 -----------------------------------------------------------------------------
 (* BUILD: the family of chains                                                *)
+Did(a) == acts' = acts \cup {a}
 TopFrame == [k |-> "top", n |-> "", items |-> 0, sup |-> FALSE]
 C == Len(tpls)
 TopOpen == open[Len(open)]
@@ -178,9 +180,10 @@ Init == /\ tpls = << <<Tx>> >> /\ ext = 0 /\ open = <<TopFrame>>
         /\ phase = "build" /\ cur = 0 /\ seen = {} /\ stacks = [n \in Names |-> <<>>] /\ items = <<>>
         /\ work = <<>> /\ out = <<>> /\ result = ""
         /\ sel = [kind |-> "none", n |-> "", t |-> 0, pos |-> 0, from |-> 0, inside |-> FALSE]
-        /\ nstacked = 0 /\ chk = [clean |-> FALSE, bound |-> 0]
+        /\ nstacked = 0 /\ chk = [clean |-> FALSE, bound |-> 0] /\ acts = {}
 
 AddBlock(n, r) ==
+  /\ Did("AddBlock")
   /\ phase = "build" /\ BDepth < MaxDepth /\ TopOpen.items < MaxItems /\ bud.blocks > 0
   /\ n \in AllowedNames /\ (r => bud.req > 0) /\ (DefinedHere(n) => bud.err > 0)
   /\ bud.feat >= (IF r THEN 1 ELSE 0) + (IF DefinedHere(n) THEN 1 ELSE 0)
@@ -192,12 +195,14 @@ AddBlock(n, r) ==
   /\ UNCHANGED <<ext, phase, result, chk>> /\ UNCHANGED mech
 
 AddSuper ==
+  /\ Did("AddSuper")
   /\ phase = "build" /\ BDepth > 0 /\ ~TopOpen.sup /\ TopOpen.items < MaxItems
   /\ tpls' = Put(<<Su>>)
   /\ open' = [open EXCEPT ![Len(open)].items = @ + 1, ![Len(open)].sup = TRUE]
   /\ UNCHANGED <<ext, bud, phase, result, chk>> /\ UNCHANGED mech
 
 AddExtra(k) ==
+  /\ Did("AddExtra")
   /\ phase = "build" /\ k \in Extras \cap {"T", "V"} /\ TopOpen.items < MaxItems /\ bud.extras > 0 /\ bud.feat > 0 /\ Room(1)
   /\ (k = "T" => LastKind # "T")
   /\ tpls' = Put(<<IF k = "T" THEN Tx ELSE Vr>>)
@@ -206,6 +211,7 @@ AddExtra(k) ==
   /\ UNCHANGED <<ext, phase, result, chk>> /\ UNCHANGED mech
 
 OpenWrap(k) ==
+  /\ Did("OpenWrap")
   /\ phase = "build" /\ k \in Extras \cap {"F", "I"} /\ ~InWrap /\ TopOpen.items < MaxItems /\ bud.extras > 0 /\ bud.feat > 0 /\ Room(1)
   /\ tpls' = Put(<<Tok(IF k = "F" THEN "Fo" ELSE "Io", "", FALSE)>>)
   /\ open' = Append(Bump, [k |-> k, n |-> "", items |-> 0, sup |-> FALSE])
@@ -214,6 +220,7 @@ OpenWrap(k) ==
 
 (* endblock carries the block's name or nothing (both forms are legal): alternate by position *)
 Close ==
+  /\ Did("Close")
   /\ phase = "build" /\ Len(open) > 1 /\ (TopOpen.k \in {"F", "I"} => TopOpen.items > 0)
   /\ tpls' = Put(<<CASE TopOpen.k = "B" -> Tok("Bc", IF Len(tpls[C]) % 2 = 0 THEN "" ELSE TopOpen.n, FALSE)
                      [] TopOpen.k = "F" -> Tok("Fc", "", FALSE)
@@ -222,6 +229,7 @@ Close ==
   /\ UNCHANGED <<ext, bud, phase, result, chk>> /\ UNCHANGED mech
 
 CloseMismatch ==
+  /\ Did("CloseMismatch")
   /\ phase = "build" /\ Len(open) > 1 /\ TopOpen.k = "B" /\ bud.err > 0 /\ bud.feat > 0 /\ Room(1) /\ NNames > 1
   /\ tpls' = Put(<<Tok("Bc", CHOOSE x \in Names : x # TopOpen.n, FALSE)>>)
   /\ open' = SubSeq(open, 1, Len(open) - 1)
@@ -229,12 +237,14 @@ CloseMismatch ==
   /\ UNCHANGED <<ext, phase, result, chk>> /\ UNCHANGED mech
 
 NextTemplate ==
+  /\ Did("NextTemplate")
   /\ phase = "build" /\ Len(open) = 1 /\ C < MaxChain
   /\ tpls' = Append(tpls, <<Tx>>)
   /\ open' = <<TopFrame>>
   /\ UNCHANGED <<ext, bud, phase, result, chk>> /\ UNCHANGED mech
 
 Finish(j) ==
+  /\ Did("Finish")
   /\ phase = "build" /\ Len(open) = 1 /\ BlocksUsed >= MinBlocks
   /\ j \in 0..C /\ (j # 0 => bud.err > 0 /\ bud.feat > 0 /\ Room(1))
   /\ ext' = j
@@ -262,10 +272,12 @@ DepthBound == chk.bound
 
 (* env.get_template(leaf): parsing checks endblock names *)
 EndblockMismatchLeaf ==
+  /\ Did("EndblockMismatchLeaf")
   /\ phase = "load" /\ HasMismatch(tpls[1])
   /\ Fail("TIE") /\ UNCHANGED <<tpls, ext, open, bud, chk>> /\ UNCHANGED mech
 (* a leaf with an extends tag starts _build_block_stacks; a template without is rendered directly *)
 LoadLeaf ==
+  /\ Did("LoadLeaf")
   /\ phase = "load" /\ ~HasMismatch(tpls[1])
   /\ cur' = 1
   /\ IF HasExtends(1) THEN phase' = "stack" /\ work' = work
@@ -274,6 +286,7 @@ LoadLeaf ==
 
 (* _stack_blocks: duplicate names in one template *)
 Duplicate ==
+  /\ Did("Duplicate")
   /\ phase = "stack" /\ HasDup(tpls[cur])
   /\ Fail("TIE") /\ UNCHANGED <<tpls, ext, open, bud, chk>> /\ UNCHANGED mech
 
@@ -291,6 +304,7 @@ Store(ti, ps, st, its) ==
        IN Store(ti, Tail(ps), [st EXCEPT ![tok.n] = Append(stack, id)], its2)
 PosSeq(t) == SelectSeq([i \in 1..Len(t) |-> i], LAMBDA i : t[i].k = "Bo")
 StackTemplate ==
+  /\ Did("StackTemplate")
   /\ phase = "stack" /\ ~HasDup(tpls[cur])
   /\ LET r == Store(cur, PosSeq(tpls[cur]), stacks, items)
      IN stacks' = r.st /\ items' = r.its
@@ -300,16 +314,20 @@ StackTemplate ==
 
 (* no extends tag: this is the base template; render it *)
 ReachBase ==
+  /\ Did("ReachBase")
   /\ phase = "follow" /\ ~HasExtends(cur)
   /\ phase' = "render" /\ work' = <<BaseFrame(cur)>>
   /\ UNCHANGED <<tpls, ext, open, bud, cur, seen, stacks, items, out, result, sel, nstacked, chk>>
 Circular ==
+  /\ Did("Circular")
   /\ phase = "follow" /\ HasExtends(cur) /\ Parent(cur) \in seen
   /\ Fail("TIE") /\ UNCHANGED <<tpls, ext, open, bud, chk>> /\ UNCHANGED mech
 EndblockMismatch ==
+  /\ Did("EndblockMismatch")
   /\ phase = "follow" /\ HasExtends(cur) /\ Parent(cur) \notin seen /\ HasMismatch(tpls[Parent(cur)])
   /\ Fail("TIE") /\ UNCHANGED <<tpls, ext, open, bud, chk>> /\ UNCHANGED mech
 FollowExtends ==
+  /\ Did("FollowExtends")
   /\ phase = "follow" /\ HasExtends(cur) /\ Parent(cur) \notin seen /\ ~HasMismatch(tpls[Parent(cur)])
   /\ seen' = seen \cup {Parent(cur)}
   /\ cur' = Parent(cur)
@@ -324,6 +342,7 @@ Step(n) == [work EXCEPT ![Len(work)].pc = n]
 Quiet == UNCHANGED <<tpls, ext, open, bud, cur, seen, stacks, items, nstacked, chk>>
 
 RenderText ==
+  /\ Did("RenderText")
   /\ AtTok /\ CurTok.k \in {"T", "V"}
   /\ out' = Append(out, Marker(F.t, F.pc))
   /\ work' = Step(F.pc + 1)
@@ -335,15 +354,19 @@ DupWhenDirect == Direct(CurTok.n) /\ HasDup(tpls[F.t]) /\ "NoDupCheckWhenDirect"
 MustOverride == IF Direct(CurTok.n) THEN CurTok.r ELSE TopItem(CurTok.n).required
 
 DuplicateDirect ==
+  /\ Did("DuplicateDirect")
   /\ AtTok /\ CurTok.k = "Bo" /\ DupWhenDirect
   /\ Fail("TIE") /\ UNCHANGED <<tpls, ext, open, bud, chk>> /\ UNCHANGED mech
 RequiredError ==
+  /\ Did("RequiredError")
   /\ AtTok /\ CurTok.k = "Bo" /\ ~DupWhenDirect /\ MustOverride
   /\ Fail("REQ") /\ UNCHANGED <<tpls, ext, open, bud, chk>> /\ UNCHANGED mech
 DepthLimit ==
+  /\ Did("DepthLimit")
   /\ phase = "render" /\ Len(work) > DepthBound
   /\ Fail("DEPTH") /\ UNCHANGED <<tpls, ext, open, bud, chk>> /\ UNCHANGED mech
 RenderBlock ==
+  /\ Did("RenderBlock")
   /\ AtTok /\ CurTok.k = "Bo" /\ ~DupWhenDirect /\ ~MustOverride
   /\ LET n == CurTok.n
          back == Step(Match(tpls[F.t], F.pc) + 1)
@@ -353,6 +376,7 @@ RenderBlock ==
   /\ Quiet /\ UNCHANGED <<phase, out, result>>
 (* BlockDrop["super"]: the parent item, whose own block drop gets parent.parent *)
 Super ==
+  /\ Did("Super")
   /\ AtTok /\ CurTok.k = "S"
   /\ IF F.sup = 0
      THEN /\ work' = Step(F.pc + 1)
@@ -362,17 +386,20 @@ Super ==
              /\ sel' = [kind |-> "super", n |-> F.d.n, t |-> it.t, pos |-> it.pos, from |-> F.d.t, inside |-> TRUE]
   /\ Quiet /\ UNCHANGED <<phase, out, result>>
 EnterWrap ==
+  /\ Did("EnterWrap")
   /\ AtTok /\ CurTok.k \in {"Fo", "Io"}
   /\ LET m == Match(tpls[F.t], F.pc)
      IN work' = Append(Step(m + 1), [t |-> F.t, pc |-> F.pc + 1, hi |-> m - 1, lo |-> F.pc + 1,
                                      reps |-> IF CurTok.k = "Fo" THEN 2 ELSE 1, sup |-> F.sup, d |-> F.d])
   /\ Quiet /\ UNCHANGED <<phase, out, result, sel>>
 EndFrame ==
+  /\ Did("EndFrame")
   /\ phase = "render" /\ work # <<>> /\ Len(work) <= DepthBound /\ F.pc > F.hi
   /\ work' = IF F.reps > 1 THEN [work EXCEPT ![Len(work)].reps = @ - 1, ![Len(work)].pc = F.lo]
              ELSE SubSeq(work, 1, Len(work) - 1)
   /\ Quiet /\ UNCHANGED <<phase, out, result, sel>>
 FinishRender ==
+  /\ Did("FinishRender")
   /\ phase = "render" /\ work = <<>>
   /\ Fail("ok") /\ UNCHANGED <<tpls, ext, open, bud, chk>> /\ UNCHANGED mech
 
@@ -431,10 +458,15 @@ StacksFollowChain ==
              /\ (k < Len(stacks[n]) => items[stacks[n][k]].t < items[stacks[n][k + 1]].t
                                        /\ items[stacks[n][k]].parent = stacks[n][k + 1])
              /\ (k = Len(stacks[n]) => items[stacks[n][k]].parent = 0)
+(* with an extends tag in the leaf every block met while rendering has a stack (the direct path is for lone templates) *)
+DirectOnlyWithoutExtends ==
+  (AtTok /\ CurTok.k = "Bo" /\ HasExtends(1)) => ~Direct(CurTok.n)
+(* `required` of a stack item is the flag of its own block tag, whatever lies below or above it *)
+RequiredIsOwnFlag == \A i \in 1..Len(items) : items[i].required = tpls[items[i].t][items[i].pos].r
 (* the walk up the chain is bounded: every template is stacked at most once more than the chain is long *)
 WalkBounded == nstacked <= Len(tpls) + 1 /\ Cardinality(seen) <= Len(tpls) /\ Len(work) <= DepthBound + 1
 ChkIsStructural == Done => (chk.clean <=> ~Structural)
 Terminates == (phase = "load") ~> (phase = "done")
 
-Emit == Done => PrintT(ToJson([tpls |-> tpls, ext |-> ext, exp |-> Expected]))
+Emit == Done => PrintT(ToJson([tpls |-> tpls, ext |-> ext, exp |-> Expected, acts |-> acts]))
 =============================================================================
